@@ -383,6 +383,7 @@ class KList(Kind):
     w = self.empty()
     for it in items:
       w.append(it)
+    w.len = z3.simplify(w.len)
     w.escaped = False
     return w
 
@@ -797,9 +798,19 @@ class VList(W):
               z3.If(k > self.len, self.len, k))
     return VList(self.kind, z3.simplify(n), self.arr)
 
+  def _concrete_items(self):
+    n = z3.simplify(self.len)
+    if z3.is_int_value(n) and n.as_long() <= 8:
+      return [self.get(i) for i in range(n.as_long())]
+    return None
+
   def suffix(self, k):
     """self[k:]."""
     k = k if z3.is_expr(k) else z3.IntVal(k)
+    items, kk = self._concrete_items(), z3.simplify(k)
+    if items is not None and z3.is_int_value(kk):
+      sl = items[kk.as_long():]
+      return self.kind.from_items(sl) if sl else self.kind.empty()
     s = z3.If(k < 0, z3.If(self.len + k < 0, 0, self.len + k),
               z3.If(k > self.len, self.len, k))
     s = z3.simplify(s)
@@ -808,6 +819,9 @@ class VList(W):
                  z3.Lambda([i], self.arr[i + s]))
 
   def reversed(self):
+    items = self._concrete_items()
+    if items is not None:
+      return self.kind.from_items(items[::-1]) if items else self.kind.empty()
     i = z3.Int('i!rev')
     return VList(self.kind, self.len, z3.Lambda([i], self.arr[self.len - 1 - i]))
 
